@@ -819,3 +819,86 @@ impl TrainDisp {
         errors.make_err()
     }
 }
+
+/// Access to the private sentinel searches for the external verification harness (/verif):
+/// add-only wrappers, no change of behaviour; compiled only with the cargo feature
+/// `verif-hooks` (off by default).
+#[cfg(feature = "verif-hooks")]
+pub mod verif_hooks {
+    use super::*;
+
+    /// `LinkOptType` as plain data: (kind, a, b) with kind 0 = None, 1 = Single(a),
+    /// 2 = Range(a, b), 3 = Check.
+    fn encode(link_opt_type: &LinkOptType) -> (u8, usize, usize) {
+        match link_opt_type {
+            LinkOptType::None => (0, 0, 0),
+            LinkOptType::Single(link_idx) => (1, link_idx.idx(), 0),
+            LinkOptType::Range(link_idx_min, link_idx_diff) => (2, *link_idx_min, *link_idx_diff),
+            LinkOptType::Check => (3, 0, 0),
+        }
+    }
+    fn decode(kind: u8, a: usize, b: usize) -> LinkOptType {
+        match kind {
+            0 => LinkOptType::None,
+            1 => LinkOptType::Single(LinkIdx::new(a as u32)),
+            2 => LinkOptType::Range(a, b),
+            _ => LinkOptType::Check,
+        }
+    }
+
+    pub fn verif_link_opt_type_new(
+        link_idxs_blocking: &[LinkIdx],
+        link_idxs_on_path: &[LinkIdx],
+    ) -> (u8, usize, usize) {
+        let on_path: IntSet<LinkIdx> = link_idxs_on_path.iter().copied().collect();
+        encode(&LinkOptType::new(link_idxs_blocking, &on_path))
+    }
+
+    pub fn verif_calc_idx_sentinels(
+        div_idx: usize,
+        train_idx_sentinel: TrainIdx,
+        div_nodes: &[DivergeNode],
+    ) -> (usize, usize) {
+        calc_idx_sentinels(div_idx, train_idx_sentinel, div_nodes)
+    }
+
+    pub fn verif_find_train_intersect(
+        idx_split: usize,
+        idx_sentinel: usize,
+        link_opt_type: (u8, usize, usize),
+        link_idx_path: &mut [LinkIdx],
+        links_blocked: &[TrainIdx],
+    ) -> usize {
+        find_train_intersect(
+            idx_split,
+            idx_sentinel,
+            &decode(link_opt_type.0, link_opt_type.1, link_opt_type.2),
+            link_idx_path,
+            links_blocked,
+        )
+    }
+
+    pub fn verif_add_blocking_trains(
+        trains_blocking: &mut Vec<TrainIdx>,
+        trains_view_base: &TrainIdxsView,
+        trains_view_add: &TrainIdxsView,
+    ) -> TrainIdxsView {
+        add_blocking_trains(trains_blocking, trains_view_base, trains_view_add)
+    }
+
+    pub fn verif_add_all_blocking_trains(
+        trains_blocking: &mut Vec<TrainIdx>,
+        trains_view_large: &TrainIdxsView,
+        trains_view_small: &TrainIdxsView,
+    ) -> TrainIdxsView {
+        add_all_blocking_trains(trains_blocking, trains_view_large, trains_view_small)
+    }
+
+    pub fn verif_concat_train_idx_views(
+        trains_blocking: &mut Vec<TrainIdx>,
+        trains_view: &TrainIdxsView,
+        trains_view_add: &TrainIdxsView,
+    ) -> TrainIdxsView {
+        concat_train_idx_views(trains_blocking, trains_view, trains_view_add)
+    }
+}
